@@ -90,7 +90,43 @@ func sweep(store string, seedsChecked bool) localResult {
 			res.Histories++
 		}
 	}
+	// twins: two different URLs that differ only in that one has a reserved character escaped where the other has it
+	// bare (a data byte versus a delimiter). Recording one must not make the other look seen, in either order,
+	// as assets and as seeds / redirect targets.
+	for ti, tw := range twinURLs {
+		for oi, order := range [][2]int{{0, 1}, {1, 0}} {
+			for pi, pos := range []string{"asset", "redirect", "seed"} {
+				urlAlpha = []spelling{{tw[0], "twin-a"}, {tw[1], "twin-b"}}
+				ns := fmt.Sprintf("t%s%d-%d-%d", store[:1], ti, oi, pi)
+				ref := refModel{}
+				var h []callSpec
+				for _, u := range []int{order[0], order[1], order[1]} { // first twin, second twin (fresh), second twin again (seen now)
+					c := callSpec{[]nodeSpec{{pos, u}}}
+					h = append(h, c)
+					want, _ := ref.check(c, seedsChecked)
+					got, sts := runCall(c, ns)
+					res.Checks++
+					if want[0] != got[0] {
+						res.Failures = append(res.Failures, seqFailure{Sig: fmt.Sprintf("%s:%s:%s:escaped-versus-bare-delimiter", store, map[bool]string{true: "refetched-although-seen", false: "skipped-although-not-seen"}[got[0]], pos),
+							Store: store, History: append([]callSpec{}, h...), Text: tw[0] + " / " + tw[1],
+							Detail: fmt.Sprintf("call %d (%s %q, after %q): reference says built=%v, Zeno: built=%v (status %s)", len(h), pos, urlAlpha[u].Text, urlAlpha[order[0]].Text, want[0], got[0], sts[0])})
+						break
+					}
+				}
+				res.Histories++
+			}
+		}
+	}
 	return res
+}
+
+// twinURLs: pairs of distinct canonical URLs (checked at start-up) that a percent-decoding of the whole URL would merge.
+var twinURLs = [][2]string{
+	{"http://s.example/x/search?a=1%26b=2", "http://s.example/x/search?a=1&b=2"},
+	{"http://s.example/x/list?k%3Dv", "http://s.example/x/list?k=v"},
+	{"http://s.example/x/get/a%2Fb", "http://s.example/x/get/a/b"},
+	{"http://s.example/x/q?n=a%3Fb", "http://s.example/x/q?n=a?b"},
+	{"http://s.example/x/p?t=a%2Bb", "http://s.example/x/p?t=a+b"},
 }
 
 // node of a call: position + spelling index
